@@ -1,7 +1,7 @@
 """Implementation driver for C01 C03 C04 C05: the real Receiver.listen() under the virtual-time loop.
 
 case = dict(A, P, N, wtt_us, stop_us, ends, horizon_us, ack_type, msgs=[dict(at, kind, style, dur, out, ack,
-            pre_fail, post_fail, save_fail, tlabel_us, cleanup_us, payload (byte values of a malformed message))])       (all instants / durations in integer microseconds,
+            pre_fail, post_fail, save_fail, psave_fail, onerr_fail, fail_exc (error | cancel | base), fail_after_us, tlabel_us, cleanup_us, payload (byte values of a malformed message))])       (all instants / durations in integer microseconds,
             dur = -1: never ends)
 observation = dict(raw=[[t_us, tag, a, b], ...], lts=[Coq event literals], cut, returned)"""
 import asyncio
@@ -54,12 +54,35 @@ def run_case(sc, opts):
                     return
                 await asyncio.Event().wait()
 
+        def fail(i, what):
+            """the injected failure of a hook / of the backend: an ordinary exception unless the scenario says otherwise"""
+            k = sc["msgs"][i].get("fail_exc", "error")
+            if k == "cancel":
+                raise asyncio.CancelledError()
+            if k == "base":
+                raise Boom()
+            raise RuntimeError(what)
+
+        async def afail(i, what):
+            """same for async hooks / set_result; with fail_after_us the call first awaits: a sleep, or - for `cancel` - a
+            future that somebody else cancels (the awaiting callback task is not itself asked to cancel)"""
+            m = sc["msgs"][i]
+            d = m.get("fail_after_us")
+            if d:
+                if m.get("fail_exc") == "cancel":
+                    fut = loop.create_future()
+                    loop.call_later(d / 1e6, fut.cancel)
+                    await fut                        # raises CancelledError here, d later
+                else:
+                    await asyncio.sleep(d / 1e6)
+            fail(i, what)
+
         class RB(AsyncResultBackend):
             async def set_result(self, tid, r):
                 i = int(tid)
                 log.add("save", i)
                 if sc["msgs"][i].get("save_fail"):
-                    raise RuntimeError("backend down")
+                    await afail(i, "backend down")
 
             async def is_result_ready(self, t):
                 return True
@@ -72,18 +95,35 @@ def run_case(sc, opts):
                 i = int(m.task_id)
                 log.add("hook.pre", i)
                 if sc["msgs"][i].get("pre_fail"):
-                    raise RuntimeError("hook")
+                    fail(i, "hook")
                 return m
 
             async def post_execute(self, m, r):
                 i = int(m.task_id)
                 log.add("hook.post", i)
                 if sc["msgs"][i].get("post_fail"):
-                    raise RuntimeError("hook")
+                    await afail(i, "hook")
+
+        class Hooks2(TaskiqMiddleware):
+            """the two other hooks of the processing path; only installed for scenarios that make one of them fail"""
+
+            async def post_save(self, m, r):
+                i = int(m.task_id)
+                log.add("hook.post_save", i)
+                if sc["msgs"][i].get("psave_fail"):
+                    await afail(i, "hook")
+
+            def on_error(self, m, r, exc):
+                i = int(m.task_id)
+                log.add("hook.on_error", i)
+                if sc["msgs"][i].get("onerr_fail"):
+                    fail(i, "hook")
 
         br = B()
         br.result_backend = RB()
         br.add_middlewares(Hooks())
+        if any(m.get("psave_fail") or m.get("onerr_fail") for m in sc["msgs"]):
+            br.add_middlewares(Hooks2())
 
         def finish(i, out):
             if out == "raise":
